@@ -16,7 +16,7 @@ from ..model import FunctionInfo, AnalysisError, dotted
 from ..pat import Snips, fn_defs
 from ..report import Ctx
 from ..tensor import Typer
-from ..util import zero_test, atomic_facts, norm, fn_body_nodes, walk_local, kwarg
+from ..util import ordered_args, zero_test, atomic_facts, norm, fn_body_nodes, walk_local, kwarg
 from .common import arg_permutation_rule, names_in, calls_named
 
 EXPLANATION = (
@@ -51,7 +51,7 @@ def items_loop_info(lp: ast.For):
     k, v = [e.id for e in lp.target.elts]
     src = it.func.value
     if isinstance(src, ast.Call) and isinstance(src.func, ast.Attribute):
-        return (ast.unparse(src.func.value), src.func.attr, [ast.unparse(a) for a in src.args], k, v)
+        return (ast.unparse(src.func.value), src.func.attr, [ast.unparse(a) for a in ordered_args(src)], k, v)
     return (ast.unparse(src), None, [], k, v)
 
 
@@ -384,9 +384,9 @@ def rule_obs_store(ctx: Ctx, fi: FunctionInfo, what: str, dist_method: str):
         return
     lp = loops[0]
     call = dist_call(fi, lp, dist_method)
-    cargs = [x.id if isinstance(x, ast.Name) else None for x in call.args]
+    cargs = [x.id if isinstance(x, ast.Name) else None for x in ordered_args(call)]
     key, val = [e.id for e in lp.target.elts]
-    ok = not call.keywords and len(ents) == len(cargs) + 1 and cargs == ents[:len(cargs)] and ents[len(cargs)] == key
+    ok = len(ordered_args(call)) == len(call.args) + len(call.keywords) and len(ents) == len(cargs) + 1 and cargs == ents[:len(cargs)] and ents[len(cargs)] == key
     ctx.check(ok, "TEN-4", fi, st, f"{what}: the entities of the axes are, in order, the arguments and the key of the enumerated {dist_method}(...)", "",
               f"the store's axes correspond to entities ({', '.join(map(str, ents))}) but the distribution is {dist_method}({', '.join(map(str, cargs))}) with key `{key}`: "
               f"a value is written at the position of a different entity than the one it was computed from")
